@@ -109,6 +109,7 @@ def gen_spec(g, dt):
         spec["bt"] = str(g.choice(["logit", "probit"]))
         spec["affine"] = bool(g.random() < 0.5)
         spec["per_rev"] = bool(g.random() < 0.5)
+        spec["pb_rev"] = bool(g.random() < 0.5)
         for j, t in enumerate(types):
             if t == "free":
                 lo[j], hi[j] = -np.inf, np.inf
@@ -198,6 +199,8 @@ def build(spec, xp, dtype_name):
         return T.AffineTransform(xp=xp, dtype=dtype_name)
     params = [PARAM_NAMES[j] for j in range(d)]
     pb = {p: [float(lo[j]), float(hi[j])] for j, p in enumerate(params)}
+    if spec.get("pb_rev"):
+        pb = dict(reversed(list(pb.items())))  # a mapping has no meaningful order: bounds belong to names, not to positions
     if kind == "composite":
         per = [p for p, t in zip(params, spec["types"]) if t == "periodic"]
         if spec.get("per_rev"):
